@@ -366,6 +366,9 @@ func zoneHandler(args []string) (string, []string) {
 			return "1", nil
 		}
 		return "0", nil
+	case args[0] == "abuse" && len(nums) == 2:
+		zoneAbuse(z.loc, int(nums[0]), int(nums[1]))
+		return "ok", nil
 	case args[0] == "occ" && len(args) == 3:
 		return occRequest(&ps, z, args[1], args[2]), ps.out()
 	}
